@@ -462,6 +462,15 @@ Proof.
   intros s H. apply young_if_few. vm_compute in H. inversion H; subst s. vm_compute. reflexivity.
 Qed.
 
+(* a one-way call takes its id from the same generator and is registered like any other (it returns right after the send) *)
+Example sys_ex_oneway :
+  option_map (fun s => map (fun ad => map (fun c => (c_id c, c_oneway c, c_pc c)) (calls ad)) (ads s))
+    (srun 2147483647 (sinit (-2) 2 1)
+       [SGen (LCall 0); SGen (LCall 1); SGen (LCas 0); SGen (LCas 1); SGen (LAdd 0); SGen (LAdd 1); SGen (LAdd 1);
+        SReg 0 0 true; SReg 1 0 false; SAd 0 (LSendOk 0); SAd 0 (LReturn 0); SAd 0 (LSendOk 1)])
+  = Some [[(-1, true, CRet OOneWay); (1, false, CWait)]].
+Proof. vm_compute. reflexivity. Qed.
+
 (* a registration needs an id of the thread's own: a thread that has not finished genRequestID cannot register *)
 Example sys_ex_no_id : srun 2147483647 (sinit 5 1 1) [SGen (LCall 0); SGen (LCas 0); SReg 0 0 false] = None.
 Proof. vm_compute. reflexivity. Qed.
